@@ -130,18 +130,18 @@ def _on_re_match(e, st, m, fname, pat, text, kw):
 # ------------------------------------------------------------------------------------------------ span methods
 contract("models.CitationBase.span",
     types={"self": "obj<CitationBase>"}, returns="tuple[int,int]", noraise=True, prop="C02",
-    requires={"self": "self is not None and self.token is not None"},
+    requires={"self": "cit_wf(self)"},
     pure_result="(ite(self.span_start is not None, self.span_start, self.token.start), ite(self.span_end is not None, self.span_end, self.token.end))")
 
 contract("models.CitationBase.full_span",
     types={"self": "obj<CitationBase>"}, returns="tuple[int,int]", noraise=True, prop="C02",
-    requires={"self": "self is not None and self.token is not None"},
+    requires={"self": "cit_wf(self)"},
     pure_result="(ite(self.full_span_start is not None, self.full_span_start, ite(self.span_start is not None, self.span_start, self.token.start)),"
                 " ite(self.full_span_end is not None, self.full_span_end, ite(self.span_end is not None, self.span_end, self.token.end)))")
 
 contract("models.CitationBase.span_with_pincite",
     types={"self": "obj<CitationBase>"}, returns="tuple[int,int]", noraise=True, prop="C02",
-    requires={"self": "self is not None and self.token is not None and self.metadata is not None and self.token.start is not None and self.token.end is not None"},
+    requires={"self": "cit_wf(self) and self.token.start is not None and self.token.end is not None"},
     ensures={
         # the pin-cite span contains the span
         "contains_span": "result[0] <= ite(self.span_start is not None, self.span_start, self.token.start) and "
@@ -394,7 +394,7 @@ def _on_join(e, st, sv, sep, xs):
     # the mapped function must be str(w)
     if not (val.ty.kind == "str" and val.v.eq(strval(e.seq_get(src, ivar).v))):
         return
-    st.assume(sv.v == z3.SubString(text.v, _off(offs, lo), _off(offs, hi) - _off(offs, lo)))
+    sv.v = z3.SubString(text.v, _off(offs, z3.simplify(lo)), _off(offs, z3.simplify(hi)) - _off(offs, z3.simplify(lo)))
     e.trust("L-CAT: ''.join(str(w) for w in words[a:b]) == text[offs[a]:offs[b]] (induction over PART; step = lemma slice_concat)")
 
 
@@ -489,3 +489,68 @@ for _fn, _cls, _fields in (("add_law_metadata", "FullLawCitation", ["pin_cite", 
 lemma("sub_no", ["x:str", "s:str", "a:int", "b:int"], "implies(not (x in s) and 0 <= a and a <= b and b <= len(s), not (x in s[a:b]))")
 ghost_code("helpers.match_on_tokens", "after:Assign#7",
     "use_lemma('sub_no', '\\n', text, len(text) - 300, len(text))")
+lemma("suffix_inner", ["T:str", "U:str", "a:int", "b:int"],
+      "implies(suffix_of(T, U) and 0 <= a and a <= b and b <= len(T), T[a:b] == U[len(U) - len(T) + a:len(U) - len(T) + b])")
+lemma("prefix_slice_inner", ["t:str", "S:int", "x:int", "y:int"], "implies(0 <= x and x <= y and y <= S and S <= len(t), t[0:S][x:y] == t[x:y])")
+
+
+def group_is_text_bwd(g, S0_):
+    base = f"({S0_} - len(m_text(m)))"
+    return (f"use_lemma('suffix_inner', m_text(m), ghost.text[0:{S0_}], m_start(m, '{g}'), m_end(m, '{g}'))\n"
+            f"use_lemma('prefix_slice_inner', ghost.text, {S0_}, {base} + m_start(m, '{g}'), {base} + m_end(m, '{g}'))\n"
+            f"assert implies(m is not None and m_has(m, '{g}'), m['{g}'] == ghost.text[{base} + m_start(m, '{g}'):{base} + m_end(m, '{g}')]), 'group_{g}_is_text'\n")
+
+
+ghost_code("helpers.add_pre_citation", "at:return",
+    group_is_text_bwd("pin_cite", S0) + group_is_text_bwd("antecedent", S0) +
+    f"use_lemma('slice_in', m['pin_cite'], py_first(m['pin_cite'], ', '), py_last(m['pin_cite'], ', '))\n"
+    f"use_lemma('window_sub', ghost.text, ({S0} - len(m_text(m))) + m_start(m, 'pin_cite'), ({S0} - len(m_text(m))) + m_end(m, 'pin_cite'), citation.metadata.pin_cite_span_start, {S0}, citation.metadata.pin_cite)\n"
+    f"use_lemma('slice_in', m['antecedent'], 0, len(m['antecedent']))\n"
+    f"use_lemma('window_sub', ghost.text, ({S0} - len(m_text(m))) + m_start(m, 'antecedent'), ({S0} - len(m_text(m))) + m_end(m, 'antecedent'), {FSS}, {S0}, citation.metadata.antecedent_guess)\n")
+
+
+def fwd_group_steps(field, g, kind, E0_, fe):
+    """lemma steps: metadata.<field> (derived from group g by `kind`) lies in text[E0:fe]"""
+    s_ = group_is_text(g, E0_)
+    lo, hi = f"{E0_} + m_start(m, '{g}')", f"{E0_} + m_end(m, '{g}')"
+    if kind == "strip":
+        s_ += f"use_lemma('slice_in', m['{g}'], py_first(m['{g}'], ', '), py_last(m['{g}'], ', '))\n"
+        s_ += f"use_lemma('window_sub', ghost.text, {lo}, {hi}, {E0_}, {fe}, citation.metadata.{field})\n"
+    elif kind == "raw":
+        s_ += f"use_lemma('slice_in', m['{g}'], 0, len(m['{g}']))\n"
+        s_ += f"use_lemma('window_sub', ghost.text, {lo}, {hi}, {E0_}, {fe}, citation.metadata.{field})\n"
+    elif kind == "prefix":
+        s_ += f"use_lemma('prefix_slice', citation.metadata.{field}, m['{g}'], len(citation.metadata.{field}))\n"
+        s_ += f"use_lemma('slice_slice', ghost.text, {lo}, m_end(m, '{g}') - m_start(m, '{g}'), len(citation.metadata.{field}))\n"
+        s_ += f"use_lemma('slice_in', ghost.text, {lo}, {lo} + len(citation.metadata.{field}))\n"
+        s_ += f"use_lemma('window_sub', ghost.text, {lo}, {lo} + len(citation.metadata.{field}), {E0_}, {fe}, citation.metadata.{field})\n"
+    return s_
+
+
+ghost_code("helpers.add_law_metadata", "at:return",
+    "".join(fwd_group_steps(f, f, k, E0, "citation.full_span_end") for f, k in
+            (("pin_cite", "strip"), ("publisher", "raw"), ("day", "raw"), ("month", "raw"), ("year", "raw"), ("parenthetical", "prefix"))))
+ghost_code("helpers.add_journal_metadata", "at:return",
+    "".join(fwd_group_steps(f, f, k, E0, "citation.full_span_end") for f, k in
+            (("pin_cite", "strip"), ("year", "raw"), ("parenthetical", "prefix"))))
+lemma("slice_inner", ["t:str", "a:int", "m:int", "x:int", "y:int"],
+      "implies(0 <= a and 0 <= x and x <= y and y <= m and a + m <= len(t), t[a:a + m][x:y] == t[a + x:a + y])")
+lemma("group_in_text", ["T:str", "a:int", "b:int"], "implies(0 <= a and a <= b and b <= len(T), T[a:b] in T)")
+
+# add_defendant provenance steps (statement ordinals refer to the function's Assign statements in source order)
+_A = "max(index - 2, 0)"
+ghost_code("helpers.add_defendant", "after:Assign#6",
+    f"use_lemma('slice_inner', ghost.text, ghost.offs[{_A}], ghost.offs[index] - ghost.offs[{_A}], py_first(plaintiff_raw, '( '), py_last(plaintiff_raw, '( '))\n"
+    f"assert citation.metadata.plaintiff == ghost.text[ghost.offs[{_A}] + py_first(plaintiff_raw, '( '):ghost.offs[{_A}] + py_last(plaintiff_raw, '( ')], 'plaintiff_is_text'")
+ghost_code("helpers.add_defendant", "after:Assign#9",
+    "use_lemma('slice_in', ghost.text[ghost.offs[start_index]:ghost.offs[citation.index]], py_first(ghost.text[ghost.offs[start_index]:ghost.offs[citation.index]], ', ('), py_last(ghost.text[ghost.offs[start_index]:ghost.offs[citation.index]], ', ('))\n"
+    "assert defendant in ghost.text[ghost.offs[start_index]:ghost.offs[citation.index]], 'defendant0_in_text'\n"
+    f"use_lemma('window_sub', ghost.text, ghost.offs[start_index], ghost.offs[citation.index], {FSS}, ghost.offs[citation.index], defendant)")
+ghost_code("helpers.add_defendant", "after:Assign#11",
+    "use_lemma('group_in_text', m_text(match), m_start(match, 'defendant'), m_end(match, 'defendant'))\n"
+    "use_lemma('group_in_text', m_text(match), m_start(match, 'year'), m_end(match, 'year'))\n"
+    "use_lemma('in_trans', defendant, m_text(match), ghost.text[ghost.offs[start_index]:ghost.offs[citation.index]])\n"
+    "use_lemma('in_trans', year, m_text(match), ghost.text[ghost.offs[start_index]:ghost.offs[citation.index]])\n"
+    f"use_lemma('window_sub', ghost.text, ghost.offs[start_index], ghost.offs[citation.index], {FSS}, ghost.offs[citation.index], defendant)\n"
+    f"use_lemma('window_sub', ghost.text, ghost.offs[start_index], ghost.offs[citation.index], {FSS}, ghost.offs[citation.index], year)\n"
+    "use_lemma('full_slice', year, 4)")
